@@ -94,3 +94,8 @@ Definition txhdr_proto_ok (h : txhdr) : bool :=
   digest_ok (h_prevalh h) && digest_ok (h_eh h) && digest_ok (h_blroot h) &&
   (h_version h <? two31) && (h_nentries h <? two31) && otxmd_proto_ok (h_md h).
 Definition entry_proto_ok (e : s_entry) : bool := digest_ok (se_hval e) && (se_vlen e <? two31).
+
+(* DigestsFromProto (terms of linear / dual / inclusion proofs): element-wise copy into [32]byte;
+   DigestsToProto copies every array into a fresh 32-byte slice (the identity on the model) *)
+Definition digests_to_proto (l : list bytes) : list bytes := l.
+Definition digests_from_proto (l : list bytes) : list bytes := map digest_from_proto l.
